@@ -41,4 +41,10 @@ pub trait Engine {
     fn components(&self) -> (Vec<&'static str>, Vec<&'static str>) {
         (vec![], vec![])
     }
+    /// `Some(k)`: every k-th case of a unit (every case when k == 1) is run a second time alone in a
+    /// fresh child process and the two fingerprints are compared: a result that depends on what
+    /// the worker process did before (process-wide state in the library) is a history dependence.
+    fn isolate_every(&self, _unit: &UnitSpec) -> Option<u64> {
+        None
+    }
 }
